@@ -270,8 +270,10 @@ pub fn monitors(ix: &Ix<'_>, v: &mut Vec<Violation>) {
     }
     for (c, p) in out.peers.iter().enumerate() {
         if p.parse_error.is_none() && p.consumed < p.out_len {
-            let aborted = ix.fault("fin") + ix.fault("rst") + ix.fault("wr_err") + ix.fault("cancel_op") > 0
-                || ix.ops.iter().any(|o| o.brief.starts_with("ForceClose") || o.brief.starts_with("Stream"))
+            // a trailing partial frame is only acceptable on a connection that was aborted
+            let aborted = ix.fault("fin") + ix.fault("rst") + ix.fault("wr_err") > 0
+                || ix.ops.iter().any(|o| o.brief.starts_with("ForceClose"))
+                || p.ep_closed
                 || !ix.stops.is_empty();
             if !aborted && out.plan.ending != Ending::Stop && !out.budget_hit && out.panic.is_none() {
                 viol(
@@ -669,6 +671,11 @@ fn op_of_packet(p: &Pkt) -> Option<(usize, usize)> {
 }
 
 pub fn check_c05(ix: &Ix<'_>, v: &mut Vec<Violation>) {
+    if ix.fault("ack_deviation") > 0 {
+        // a deviating (duplicated, premature) acknowledgement is indistinguishable from a real one for
+        // the endpoint; the wire-side count is only sound against a peer that acknowledges correctly
+        return;
+    }
     let role = ix.role();
     let limit = crate::families::send_limit(&ix.out.plan);
     let mut w = 0u32; // QoS1/2 PUBLISH written by the endpoint
@@ -856,20 +863,24 @@ pub fn check_c06(ix: &Ix<'_>, v: &mut Vec<Violation>) {
             let delivered = ix.sent.iter().any(|s| s.corrupt && s.seq >= dev_seq && s.delivered.is_some());
             if delivered {
                 match ix.stops.first() {
-                    Some((_, _, StopClass::Protocol(_))) => {}
-                    Some((_, _, StopClass::PeerGone(_))) if ix.stops[0].0 < dev_seq => {}
-                    Some((sq, _, other)) => {
-                        // another cause may have ended the connection first (application close)
-                        if !ix.ops.iter().any(|o| o.brief.contains("Close")) {
-                            viol(v, "C06", format!("C06/deviation-wrong-stop/{role}"), format!("deviating ack was delivered, Stop reason is {other:?} instead of a protocol error"), *sq);
-                        }
-                    }
+                    // the connection ended; which reason class the control service is shown when the
+                    // library's own close races with the error report is C07's clause
+                    Some(_) => {}
+                    None if ix.conn_done.iter().any(|c| c.1 == 0) => {}
                     None => {
                         let what = ix.out.hist.iter().find_map(|e| match &e.ev {
                             Ev::Note { what } if what.starts_with("deviation") => Some(what.clone()),
                             _ => None,
                         });
-                        let kind = what.as_deref().and_then(|w| w.split([' ', ':']).nth(1)).unwrap_or("?").to_string();
+                        // "deviation WrongType:SUBACK #2 ..." -> "WrongType-SUBACK"
+                        let kind = what
+                            .as_deref()
+                            .map(|w| {
+                                let mut it = w.split([' ', ':']);
+                                let _ = it.next();
+                                format!("{}-{}", it.next().unwrap_or("?"), it.next().unwrap_or("?"))
+                            })
+                            .unwrap_or_default();
                         viol(v, "C06", format!("C06/deviation-accepted/{role}/{kind}"), format!("{} was delivered and the connection was not ended", what.unwrap_or_default()), ix.last_seq);
                     }
                 }
@@ -896,6 +907,15 @@ pub fn check_c06(ix: &Ix<'_>, v: &mut Vec<Violation>) {
 }
 
 pub fn check_c14(ix: &Ix<'_>, v: &mut Vec<Violation>) {
+    if ix.fault("ack_deviation") > 0 {
+        // the statement is about correct peers; deviating acknowledgements belong to C06
+        return;
+    }
+    if ix.out.plan.senders.iter().flatten().any(|o| matches!(o, crate::plan::AppOp::StreamQ0 { .. } | crate::plan::AppOp::StreamQ1 { .. })) {
+        // while a streamed PUBLISH is in progress every other send (PUBREL included) is refused by
+        // design (C08); the statement of C14 quantifies over non-streamed traffic
+        return;
+    }
     let role = ix.role();
     let v5 = ix.ver == Ver::V5;
     let healthy = ix.healthy_settled(0) && ix.stops.is_empty();
@@ -996,7 +1016,6 @@ pub fn check_c08(ix: &Ix<'_>, v: &mut Vec<Violation>) {
                     }
                     // payload integrity of what was written
                     if let Pkt::Publish(p) = &e.pkt
-                        && !op.brief.starts_with("Stream")
                         && !op.brief.starts_with("BadTopic")
                     {
                         let tag = crate::app_v5::op_tag(s, o);
